@@ -39,7 +39,7 @@ PROPERTIES = {
     "C03": {"components": ["actor"], "rule": _RULE, "modelled_not_verified": _MNV, "monitor_filter": r"^c03-|^no-quiescence$|^crash$"},
     "C05": {"components": ["actor"], "rule": _RULE, "modelled_not_verified": _MNV, "monitor_filter": r"^c05-|^crash$"},
     "C06": {"components": ["actor"], "rule": _RULE, "modelled_not_verified": _MNV, "monitor_filter": r"^c06-|^crash$"},
-    "C08": {"components": ["actor"], "rule": _RULE, "modelled_not_verified": _MNV, "monitor_filter": r"^c08-|^crash$"},
+    "C08": {"components": ["actor"], "rule": _RULE, "modelled_not_verified": _MNV, "monitor_filter": r"^c08-|^c09-survivor-paused$|^c09-half-stopped$|^crash$"},   # a directive that is not applied to all its targets shows as a paused / half-stopped survivor
     "C09": {"components": ["actor"], "rule": _RULE, "modelled_not_verified": _MNV, "monitor_filter": r"^c09-|^no-quiescence$|^crash$"},
 }
 
